@@ -119,13 +119,12 @@ def _compute_headers(cols, col_indices):
 	sanitized_names = []
 	dtypes = []
 	seen = set()
+	shown = set(col_indices)
 
-	for idx in col_indices:
+	# Walk ALL columns (col_indices is ascending): a repeated name whose first occurrence
+	# is hidden by column truncation must still get its indexed suffix
+	for idx in range(len(cols)):
 		col = cols[idx]
-
-		# Display name
-		disp = col._name or ""
-		display_names.append(disp)
 
 		# Sanitized dot name
 		if col._name:
@@ -139,6 +138,13 @@ def _compute_headers(cols, col_indices):
 				seen.add(san)
 		else:
 			san = f"col{idx}_"
+
+		if idx not in shown:
+			continue
+
+		# Display name
+		disp = col._name or ""
+		display_names.append(disp)
 		sanitized_names.append(san)
 
 		# Dtype (with nullable indicator)
